@@ -19,6 +19,7 @@ global size_of usize == 8;
 //@@ include prelude/codec_types.rs
 //@@ include prelude/core_types.rs
 //@@ include prelude/socket_standins.rs
+//@@ include prelude/recv_specs.rs
 
 //@ item src/lib.rs :: enum SocketType
 //@ end
@@ -164,6 +165,10 @@ pub proof fn lemma_told_push(log: Seq<Message>, m: Message, tag: u8, t: Seq<u8>,
 pub open spec fn announced(w0: ZmqFramedWrite, w1: ZmqFramedWrite, tag: u8, t: Seq<u8>) -> bool {
     exists|m: Message| is_sub_msg(m, tag, t) && #[trigger] flushed_one(w0, w1, m)
 }
+/// which read half the fair queue holds for which identity
+pub closed spec fn squeued(b: SubSocketBackend) -> Option<Map<PeerIdentity, ZmqFramedRead>> {
+    match b.fair_queue_inner { Some(m) => Some(m.inner.streams@), None => None }
+}
 pub closed spec fn subs_of(b: SubSocketBackend) -> Set<Seq<u8>> { topic_set(b.subs.inner) }
 /// C13, at a quiescent moment: nothing is left buffered for any registered peer, and each has been told exactly the
 /// socket's current topic set (count 1 for a topic in the set, 0 for any other)
@@ -200,11 +205,15 @@ impl SubSocketBackend {
 //@ name SubSocketBackend::peer_disconnected
 //@ inherent
 //@ receiver-mut
+//@ mutref? "&self.fair_queue_inner"
 //@ spec
 //@|        ensures
 //@|            final(self).peers@ == old(self).peers@.remove(*peer_id),
 //@|            subs_of(*final(self)) == subs_of(*old(self)),
 //@|            agrees(*old(self)) ==> agrees(*final(self)),
+//@|            // C16: the queued read half is dropped as well
+//@|            squeued(*old(self)) is None ==> squeued(*final(self)) is None,
+//@|            squeued(*old(self)) is Some ==> squeued(*final(self)) == Some(squeued(*old(self))->Some_0.remove(*peer_id)),
 //@ end
 // C01 / C04: the socket announces its own type
 //@ item src/sub.rs :: impl SubSocketBackend / fn with_options
@@ -482,6 +491,30 @@ impl SubSocket {
 //@|        broadcast use string_set_axioms::group_string_set;
 //@|        broadcast use group_topics;
 //@|        broadcast use vstd::std_specs::hash::group_hash_axioms;
+//@ end
+}
+
+impl SubSocket {
+// C16 (and C14's shape): recv returns the first message item verbatim; a peer whose failure it reports is forgotten
+// completely (table entry and queued read half)
+//@ item src/sub.rs :: impl SocketRecv for SubSocket / fn recv
+//@ name SubSocket::recv
+//@ inherent
+//@ attr
+//@|    #[verifier::loop_isolation(false)]
+//@|    #[verifier::exec_allows_no_decreases_clause]
+//@ ret r
+//@ spec
+//@|        ensures plain_received(old(self).fair_queue.log@, final(self).fair_queue.log@, r),
+//@|            failed_item(final(self).fair_queue.log@.last()) ==> final(self).backend.peers@ == old(self).backend.peers@.remove(final(self).fair_queue.log@.last()->Some_0.0)
+//@|                && (squeued(*old(self).backend) is Some ==> squeued(*final(self).backend) == Some(squeued(*old(self).backend)->Some_0.remove(final(self).fair_queue.log@.last()->Some_0.0))),
+//@|            !failed_item(final(self).fair_queue.log@.last()) ==> final(self).backend.peers@ == old(self).backend.peers@ && squeued(*final(self).backend) == squeued(*old(self).backend),
+//@ loop 1
+//@|            invariant
+//@|                self.fair_queue.log@.len() >= old(self).fair_queue.log@.len(),
+//@|                self.fair_queue.log@.subrange(0, old(self).fair_queue.log@.len() as int) =~= old(self).fair_queue.log@,
+//@|                forall|i: int| old(self).fair_queue.log@.len() <= i < self.fair_queue.log@.len() ==> skipped_item(#[trigger] self.fair_queue.log@[i]),
+//@|                self.backend.peers@ == old(self).backend.peers@, squeued(*self.backend) == squeued(*old(self).backend),
 //@ end
 }
 
